@@ -60,13 +60,13 @@ func allChecks() []Check {
 				{Harness: "VP_C02_bytes", Quick: map[string]int{"L": 2, "ALPHA": 0}, Thorough: map[string]int{"L": 3, "ALPHA": 0}, MustReach: []string{"C02/bytes/derivable", "C02/bytes/underivable"}, PanicLabel: "C02/bytes/no-panic"},
 				{Harness: "VP_C02_ops", Quick: map[string]int{"N": 1, "P": 1, "ALPHA": 0}, Thorough: map[string]int{"N": 2, "P": 1, "ALPHA": 0}, MustReach: []string{"C02/ops/derivable"}, PanicLabel: "C02/ops/no-panic"},
 				{Harness: "VP_C02_lists", Quick: map[string]int{"K": 2}, Thorough: map[string]int{"K": 3}, MustReach: []string{"C02/lists/derivable", "C02/lists/underivable"}, PanicLabel: "C02/lists/no-panic"},
-				{Harness: "VP_C02_postfix", Quick: map[string]int{"K": 5}, Thorough: map[string]int{"K": 6}, MustReach: []string{"C02/postfix/derivable", "C02/postfix/underivable"}, PanicLabel: "C02/postfix/no-panic"},
+				{Harness: "VP_C02_postfix", Quick: map[string]int{"K": 5, "CUT": 0}, Thorough: map[string]int{"K": 6, "CUT": 0}, MustReach: []string{"C02/postfix/derivable", "C02/postfix/underivable"}, PanicLabel: "C02/postfix/no-panic"},
 			},
 			Bounds: map[string]string{"tokens": "differential: real parser (stub scanner, cut at first diagnostic) vs a reference parser written from the statement, on every sequence of exactly K tokens over the full alphabet with symbolic line-break flags; accept/reject must agree and trees are compared structurally; quick K=3, thorough K=4",
 				"ops":       "a op b op c op d with N symbolic operators over all binary operators, ',', '=', '?', ':' (N=3: all triples); with P=1 one operand (symbolic choice) carries symbolic prefix operators/typeof and a postfix .name or ()",
 				"ops-assoc": "chains of N operators over the associativity-sensitive sub-alphabet {? : = , + || *} (N=4 quick, 5 thorough): nested conditionals, assignment chains, comma",
 				"bytes":     "integration without the stub: real scanner+parser on every text of L symbolic bytes vs reference tokenizer + reference parser (quick L=2, thorough L=3), and on every text of L bytes over the literal-adjacent alphabet {- 0 x 1 space .} (quick L=6, thorough L=7); a literal immediately followed by an identifier character must be rejected",
-				"postfix":   "a primary followed by K symbolic tokens over { . !. ( ) name , } with symbolic line-break flags (member access / call chains); quick K=5, thorough K=6",
+				"postfix":   "a primary followed by K symbolic tokens over { . !. ( ) name , } with symbolic line-break flags (member access / call chains), parsed with full error recovery (no cut: a diagnostic recorded early must still make the parse fail); quick K=5, thorough K=6",
 				"lists":     "[ t1..tK ] and a( t1..tK ) with K symbolic inner tokens and a symbolic line-break flag on the closing token; quick K=2, thorough K=3"},
 			Outside:     []string{"token sequences longer than the layers", "f(...) with no argument before the spread and whether the name after '.' may start on the next line (statement silent: assumed away)", "token-internal scanner errors (malformed literals) at token level"},
 			Assumptions: append([]string{"token-level harnesses replace (*Scanner).Scan by a stub that returns symbolic token kinds from the scanner image established by C14/scanstep (kind-in-image); native replays render the tokens to text and run the real scanner"}, commonAssumptions...),
